@@ -112,7 +112,15 @@ def beartype_type(
 
     # For the unqualified name and value of each direct (i.e., *NOT* indirectly
     # inherited) attribute of this class...
-    for attr_name, attr_value in cls.__dict__.items():  # pyright: ignore[reportGeneralTypeIssues]
+    #
+    # Note that this iteration intentionally iterates over a shallow copy of
+    # (rather than a live view onto) the dictionary of this class. Decorating
+    # these attributes may implicitly add new attributes to this dictionary
+    # (e.g., CPython lazily creating the "__annotations__" dunder attribute
+    # when this class is tested against a runtime-checkable protocol), in which
+    # case iterating over a live view raises a non-human-readable
+    # "RuntimeError: dictionary changed size during iteration".
+    for attr_name, attr_value in tuple(cls.__dict__.items()):  # pyright: ignore[reportGeneralTypeIssues]
         # If this attribute is...
         if (
             # True only if this attribute is directly beartypeable (e.g., is either
@@ -169,7 +177,8 @@ def beartype_type(
                 # class attribute of the currently decorated class whose value
                 # is that class (rather than as a nested class of the currently
                 # decorated class)...
-                not attr_value.__qualname__.startswith(cls.__qualname__)
+                not attr_value.__qualname__.startswith(
+                    f'{cls.__qualname__}.')
             )
         ):
             # print(f'Decorating {repr(cls)} attribute "{attr_name}"...')
